@@ -8,12 +8,13 @@ use std::cell::Cell;
 use yuvxyb::{ColorPrimaries, Hsl, LinearRgb, Rgb, TransferCharacteristic, Xyb};
 
 thread_local! {
-    static K: Cell<u32> = const { Cell::new(0) };
+    // one counter per kind of image: families alternate between kinds, a shared counter would lock each kind to a parity
+    static K: [Cell<u32>; 4] = const { [Cell::new(0), Cell::new(0), Cell::new(0), Cell::new(0)] };
 }
-fn mode(npx: usize) -> u32 {
+fn mode(kind: usize, npx: usize) -> u32 {
     let k = K.with(|c| {
-        let v = c.get();
-        c.set(v.wrapping_add(1));
+        let v = c[kind].get();
+        c[kind].set(v.wrapping_add(1));
         v
     });
     // priming a canvas through a conversion costs a conversion: small images only
@@ -31,7 +32,7 @@ fn grey(n: usize) -> Vec<[f32; 3]> {
 const E: &str = "ctor";
 
 pub fn lin(px: &[[f32; 3]], w: usize, h: usize) -> Result<LinearRgb, &'static str> {
-    let mut img = match mode(px.len()) {
+    let mut img = match mode(0, px.len()) {
         0 => return LinearRgb::new(px.to_vec(), w, h).map_err(|_| E),
         1 => LinearRgb::new(grey(px.len()), w, h).map_err(|_| E)?,
         2 => LinearRgb::from(Xyb::from(LinearRgb::new(grey(px.len()), w, h).map_err(|_| E)?)),
@@ -44,7 +45,7 @@ pub fn lin(px: &[[f32; 3]], w: usize, h: usize) -> Result<LinearRgb, &'static st
     Ok(img)
 }
 pub fn xyb(px: &[[f32; 3]], w: usize, h: usize) -> Result<Xyb, &'static str> {
-    let mut img = match mode(px.len()) {
+    let mut img = match mode(1, px.len()) {
         0 => return Xyb::new(px.to_vec(), w, h).map_err(|_| E),
         1 => Xyb::new(grey(px.len()), w, h).map_err(|_| E)?,
         2 => Xyb::from(LinearRgb::new(grey(px.len()), w, h).map_err(|_| E)?),
@@ -57,7 +58,7 @@ pub fn xyb(px: &[[f32; 3]], w: usize, h: usize) -> Result<Xyb, &'static str> {
     Ok(img)
 }
 pub fn hsl(px: &[[f32; 3]], w: usize, h: usize) -> Result<Hsl, &'static str> {
-    let mut img = match mode(px.len()) {
+    let mut img = match mode(2, px.len()) {
         0 => return Hsl::new(px.to_vec(), w, h).map_err(|_| E),
         1 => Hsl::new(vec![[0.0, 0.0, 0.5]; px.len()], w, h).map_err(|_| E)?,
         _ => Hsl::from(LinearRgb::new(grey(px.len()), w, h).map_err(|_| E)?),
@@ -69,7 +70,7 @@ pub fn hsl(px: &[[f32; 3]], w: usize, h: usize) -> Result<Hsl, &'static str> {
     Ok(img)
 }
 pub fn rgb(px: &[[f32; 3]], w: usize, h: usize, t: TransferCharacteristic, p: ColorPrimaries) -> Result<Rgb, &'static str> {
-    let mut img = match mode(px.len()) {
+    let mut img = match mode(3, px.len()) {
         0 => return Rgb::new(px.to_vec(), w, h, t, p).map_err(|_| E),
         1 => Rgb::new(grey(px.len()), w, h, t, p).map_err(|_| E)?,
         _ => match Rgb::try_from((LinearRgb::new(grey(px.len()), w, h).map_err(|_| E)?, t, p)) {
